@@ -103,14 +103,30 @@ ASSUMPTIONS = [
 CHUNK = 4
 
 U_MENU = (0.1, 0.5, 0.9)
-EPS_FRACS = {"T/4": 0.25, "T/2.5": 0.4, "2T": 2.0}  # eps = fraction * T
-EPS_DIVS = {"T/5": 5.0, "T/10": 10.0, "T/3": 3.0, "T/9": 9.0}  # eps = T / divisor
+EPS_FRACS = {"T/4": 0.25, "T/2.5": 0.4, "2T": 2.0, "T": 1.0, "T/2": 0.5, "T/8": 0.125}  # eps = fraction * T
+EPS_DIVS = {"T/5": 5.0, "T/10": 10.0, "T/3": 3.0, "T/9": 9.0, "T/50": 50.0, "T/200": 200.0}  # eps = T / divisor
 # maximum steps per product: T/5 and T/10 divide the yearly maturities and the gaps between the scripted jump times exactly
 # in decimal but not in binary (0.2, 0.1 against the times 0.1, 0.5, 0.9, 1.0); T = 0.9 with eps = 0.3 and 0.1 likewise
 EPS_MENU = ["T/4", "T/2.5", "2T", "T/5", "T/10"]
 EPS_MENU_BY_PRODUCT = {"spot-09": ["T/3", "T/9", "T/4"]}
 LATTICE = [round(0.1 * k, 10) for k in range(1, 11)]
 FINER_EPS = [0.1, 0.15, 0.2, 0.3, 0.7, 1.5]
+# exact ties: maximum steps equal to the maturity (T), to a date interval of the yearly / monthly products and to the gap left
+# by u = 0.5 (T/2), and a smaller power of two (T/8): every gap of the no-jump path and of u = 0.5 is an exact multiple
+EPS_TIES = ["T", "T/2", "T/8"]
+EPS_MANY = ["T/50", "T/200"]  # many refinement points (accumulation)
+# binary lattice for the finer-grid functions: all times, gaps and maximum steps are exact in binary, every gap is an exact
+# multiple of 0.125 and 0.25, and a jump time may sit at time 0 and at the declared maturity
+LATTICE_B = [0.25 * k for k in range(0, 9)]
+FINER_EPS_B = [0.125, 0.25, 0.5, 0.75, 1.0]
+FINER_FORMS = ["int", "np64", "np32", "0d"]  # Python lists are rejected by the unchanged tree
+FINER_ACC_DIVS = [64, 100, 128, 300, 1000]
+# an inserted point closer than 1e-9 * eps to its neighbour is judged in gaps of at most this many maximum steps; in longer
+# gaps the rounding of the library's repeated subtraction of eps (relative to the GAP) may exceed the library's own tolerance
+# (1e-12 relative to EPS): such points are counted, not judged (see the module docstring)
+NEAR_DUP_JUDGED_UP_TO = 128
+BASE5 = ["levy-hem", "chain-hem", "copula-chain", "coupling-hem", "coupling-copula"]
+MANY = 6  # "many" jumps in one interval
 
 
 def _eps_of(name, T):
@@ -124,10 +140,27 @@ def _eps_of(name, T):
 # ----------------------------------------------------------------------------------------------------------------------
 
 def _n_intervals(prod):
-    kind, disc, T = U.PRODUCTS[prod]
-    if kind == "spot":
-        return 1
-    return {"asian-y1": 1, "asian-y2": 2, "asian-y3": 3, "asian-m2": 2, "asian-m3": 3}[prod]
+    return U.n_intervals(prod)
+
+
+def _patterns(n):
+    """count patterns for products with many dates"""
+    onehot = [0] * n
+    onehot[n // 2] = 2
+    return {"zeros": [0] * n, "ones": [1] * n, "mod3": [(7 * k + 1) % 3 for k in range(n)], "onehot": onehot}
+
+
+def _many_counts(n):
+    """many jumps in one interval and none in the others"""
+    if n == 1:
+        return [[MANY]]
+    first, last = [MANY] + [0] * (n - 1), [0] * (n - 1) + [MANY]
+    out = [first, last]
+    if n > 2:
+        mid = [0] * n
+        mid[n // 2] = MANY
+        out.append(mid)
+    return out
 
 
 def _preload():
@@ -149,6 +182,25 @@ def cases(tier):
                 for eps in FINER_EPS:
                     for k in (1, 2, 3, 4):
                         out.append({"sub": "finer", "copy": copy, "vals": vals, "maturity": mat, "eps": eps, "k": k})
+    # ... on the binary lattice (exact ties, time 0, the maturity itself, no point at all)
+    for copy in ("levyprocess", "helper"):
+        for vals in ("1d", "2d"):
+            for mat in (2.0, 3.0):
+                for eps in FINER_EPS_B:
+                    for k in (0, 1, 2, 3, 4):
+                        out.append({"sub": "finer", "copy": copy, "vals": vals, "maturity": mat, "eps": eps, "k": k, "lattice": "B"})
+    # ... with the arguments in their other legal forms (same answer as with Python floats / float arrays)
+    for copy in ("levyprocess", "helper"):
+        for form in FINER_FORMS:
+            for vals in ("1d", "2d"):
+                for eps in ([1.0] if form == "int" else [0.25, 0.75, 1.0]):
+                    out.append({"sub": "finer", "copy": copy, "vals": vals, "maturity": 2.0, "eps": eps, "k": 2, "lattice": "B",
+                                "form": form})
+    # ... with many refinement points
+    for copy in ("levyprocess", "helper"):
+        for mat in (1.0, 3.0):
+            for div in FINER_ACC_DIVS:
+                out.append({"sub": "finer", "copy": copy, "vals": "1d", "maturity": mat, "eps": mat / div, "k": "acc"})
     if thorough:
         sims = list(U.SIMS)
         prods = ["spot-1", "spot-05", "spot-09", "asian-y1", "asian-y2", "asian-m2", "asian-y3", "asian-m3"]
@@ -159,16 +211,65 @@ def cases(tier):
         # level-0 couplings, engine construction route and reinit models: 1 and 2 intervals in quick (3 in thorough)
         short = ["coupling-hem-l0", "coupling-copula-l0", "coupling-hem-engine", "coupling-copula-engine",
                  "levy-merton-reinit", "chain-cgmy12-reinit", "coupling-hem-reinit"]
+    quick_sims = list(sims)
+    sim_cases = []
     for prod in prods:
         n = _n_intervals(prod)
         for sim in sims + (short if not thorough and n < 3 else []):
-            out.append({"sub": "sim", "sim": sim, "prod": prod, "mode": "fixed", "eps": None})
+            sim_cases.append({"sub": "sim", "sim": sim, "prod": prod, "mode": "fixed", "eps": None})
             for counts in itertools.product((0, 1, 2), repeat=n):
-                out.append({"sub": "sim", "sim": sim, "prod": prod, "mode": "jump", "eps": None, "counts": list(counts)})
+                sim_cases.append({"sub": "sim", "sim": sim, "prod": prod, "mode": "jump", "eps": None, "counts": list(counts)})
             for ef in EPS_MENU_BY_PRODUCT.get(prod, EPS_MENU):
                 for counts in itertools.product((0, 1, 2), repeat=n):
-                    out.append({"sub": "sim", "sim": sim, "prod": prod, "mode": "max", "eps": ef, "counts": list(counts)})
-    return out
+                    sim_cases.append({"sub": "sim", "sim": sim, "prod": prod, "mode": "max", "eps": ef, "counts": list(counts)})
+    base = list(U.SIMS) if thorough else BASE5
+    # exact ties of the maximum step with the maturity / a date interval / a gap
+    for prod in (["spot-1", "asian-y2", "asian-m2"] if thorough else ["spot-1", "asian-y2"]):
+        n = _n_intervals(prod)
+        for sim in base:
+            for ef in EPS_TIES:
+                for counts in itertools.product((0, 1, 2), repeat=n):
+                    sim_cases.append({"sub": "sim", "sim": sim, "prod": prod, "mode": "max", "eps": ef, "counts": list(counts)})
+    # many jumps in one interval and none in the others
+    for prod in (["spot-1", "asian-y2", "asian-m3", "asian-y3"] if thorough else ["spot-1", "asian-y2", "asian-m3"]):
+        n = _n_intervals(prod)
+        for sim in base:
+            tuples = _many_counts(n) + [[0] * n, [3] * n]
+            sim_cases.append({"sub": "sim", "sim": sim, "prod": prod, "mode": "fixed", "eps": None, "tuples": tuples})
+            for counts in _many_counts(n):
+                sim_cases.append({"sub": "sim", "sim": sim, "prod": prod, "mode": "jump", "eps": None, "counts": counts,
+                                  "scripts": "spread"})
+                for ef in ("T/4", "T/10"):
+                    sim_cases.append({"sub": "sim", "sim": sim, "prod": prod, "mode": "max", "eps": ef, "counts": counts,
+                                      "scripts": "spread"})
+    # many product dates, many refinement points
+    for prod in (["asian-m24", "asian-w26"] if thorough else ["asian-m24"]):
+        pats = _patterns(_n_intervals(prod))
+        for sim in base:
+            sim_cases.append({"sub": "sim", "sim": sim, "prod": prod, "mode": "fixed", "eps": None,
+                              "tuples": [pats[k] for k in ("zeros", "ones", "mod3", "onehot")]})
+            for pk in ("ones", "mod3", "onehot"):
+                sim_cases.append({"sub": "sim", "sim": sim, "prod": prod, "mode": "jump", "eps": None, "counts": pats[pk],
+                                  "scripts": "spread"})
+            for ef in EPS_MANY:
+                for pk in ("zeros", "mod3", "onehot"):
+                    sim_cases.append({"sub": "sim", "sim": sim, "prod": prod, "mode": "max", "eps": ef, "counts": pats[pk],
+                                      "scripts": "spread"})
+    # the maturity and the maximum step in their other legal forms (Python int, numpy scalar, 0-d array)
+    for form in (U.FORMS if thorough else U.FORMS[:2]):
+        for prod in ("spot-1", "asian-y2"):
+            n = _n_intervals(prod)
+            for sim in (quick_sims if thorough else BASE5):
+                sim_cases.append({"sub": "sim", "sim": sim, "prod": prod, "mode": "fixed", "eps": None, "form": form})
+                sim_cases.append({"sub": "sim", "sim": sim, "prod": prod, "mode": "jump", "eps": None, "counts": [1] * n, "form": form})
+                for ef in ("T/4", "T", "2T"):
+                    for counts in ([0] * n, [1] * n):
+                        sim_cases.append({"sub": "sim", "sim": sim, "prod": prod, "mode": "max", "eps": ef, "counts": counts,
+                                          "form": form})
+    # what the pool does between pre_computation and the simulations, alternately by dill and by copy.deepcopy
+    for i, c in enumerate(sim_cases):
+        c["pool_copy"] = ("dill", "deepcopy")[i % 2]
+    return out + sim_cases
 
 
 def check_case(sh, case):
@@ -228,6 +329,54 @@ def _multisets(c):
     return [sorted(m, reverse=True) for m in itertools.combinations_with_replacement(U_MENU, c)]
 
 
+U_TOP = 1.0 - 2.0 ** -53  # the largest value numpy.random.random_sample can return
+
+
+def _edge_script(counts):
+    """jump-time uniforms at the ends of [0, 1): u = 0 puts a jump on the product date that opens its interval (time 0 in
+    the first interval), u = 1 - 2^-53 puts it one ulp before the next product date - or, when the interval does not start
+    at 0, ON it after rounding (the maturity in the last interval)"""
+    out = []
+    for k, c in enumerate(counts):
+        if c == 0:
+            out.append([])
+        elif c == 1:
+            out.append([0.0] if k % 2 == 0 else [U_TOP])
+        else:
+            out.append([U_TOP] + [0.5] * (c - 2) + [0.0])
+    return tuple(out)
+
+
+def _scripts_of(case, counts):
+    """the jump-time scripts of a jump-time / maximum-step case: every multiset of the menu per interval ("std") or, for
+    large counts / many dates ("spread"), pairwise distinct uniforms and all-equal uniforms; then the edge script"""
+    if case.get("scripts") == "spread":
+        spread = tuple([(2 * j + 1) / (2.0 * c) for j in reversed(range(c))] for c in counts)
+        equal = tuple([U_MENU[k % 3]] * c for k, c in enumerate(counts))
+        scripts = [spread, equal]
+    else:
+        scripts = list(itertools.product(*[_multisets(c) for c in counts]))
+    if sum(counts):
+        scripts.append(_edge_script(counts))
+    return scripts
+
+
+def _pool_copy(sh, d, mode, n, how):
+    """history operation: from here on a copy of the simulator (dill / deepcopy) simulates, as in a pool worker"""
+    if not how:
+        return True
+    sh.count("pool_copies")
+    try:
+        d.pool_copy(how)
+    except U.ProtocolError:
+        raise
+    except Exception as e:
+        sh.violation(_raise_key(mode, d.cls, e, n) + ":pool-copy-" + how,
+                     f"{d.sim} {d.product_name} {mode}: the simulator could not be copied ({how}) after pre_computation: {e!r}", None)
+        return False
+    return True
+
+
 # ----------------------------------------------------------------------------------------------------------------------
 # sub-check: the real simulators
 # ----------------------------------------------------------------------------------------------------------------------
@@ -241,7 +390,11 @@ def _sub_sim(sh, case):
     sh.cls(f"mode:{mode}")
     sh.cls(f"product:{prod}")
     if eps is not None:
-        sh.cls("eps>=maturity" if eps >= T else "eps<maturity")
+        sh.cls("eps>maturity" if eps > T else "eps=maturity" if eps == T else "eps<maturity")
+    if case.get("form"):
+        sh.cls("form:" + case["form"])
+    if case.get("pool_copy"):
+        sh.cls("pool-copy:" + case["pool_copy"])
     if mode == "fixed":
         _run_fixed(sh, case, sim, prod, cls)
     else:
@@ -298,6 +451,28 @@ class _Kept:
                 self.items = [x for x in self.items if x is not item]
 
 
+def _kept_copies(sh, kept, how_many=3):
+    """a kept path survives copy.deepcopy and a dill round trip (the pool sends the results of a chunk back pickled)"""
+    import copy as _copy
+
+    import dill
+
+    d = kept.d
+    for label, sp, snap in kept.items[-how_many:]:
+        for how in ("deepcopy", "dill"):
+            sh.count("kept_path_copies")
+            try:
+                cp = _copy.deepcopy(sp) if how == "deepcopy" else dill.loads(dill.dumps(sp))
+                now = U.Driver.snapshot(cp)
+                changed = [nm for nm, x, y in zip(kept.NAMES, snap, now) if x.shape != y.shape or not np.array_equal(x, y, equal_nan=True)]
+            except Exception as e:  # noqa
+                changed, now = [f"raises-{type(e).__name__}"], None
+            for comp in changed:
+                sh.violation(f"C15:{_mode_name(kept.mode)}:{d.cls}:kept-path-changes:copy-{how}:{comp}",
+                             f"{d.sim} {d.product_name} {kept.mode} eps={d.eps}: the {how} copy of the path {label} does not "
+                             f"carry the path's {comp}", {"path": label, "before": list(snap), "after": None if now is None else list(now)})
+
+
 def _other_object(sh, d, mode, n, kept):
     """history operation: another simulator of the same class (the engine's deepcopy [+ next_level]) simulates in between"""
     sh.count("other_object_operations")
@@ -321,14 +496,17 @@ def _run_fixed(sh, case, sim, prod, cls):
     the same class simulates; batch 2 (same object, when batch 1 went through): pre_computation again for the tuples in
     reverse order.  Brownian variates are identified across both batches (each feeds at most one path)."""
     n = _n_intervals(prod)
-    tuples = list(itertools.product((0, 1, 2), repeat=n))
+    if case.get("tuples"):
+        tuples = [tuple(int(c) for c in tp) for tp in case["tuples"]]
+    else:
+        tuples = list(itertools.product((0, 1, 2), repeat=n))
     remaining = list(tuples)
     guard = 0
     while remaining:
         guard += 1
         if guard > len(tuples) + 2:
             raise U.ProtocolError("fixed-date batch does not make progress")
-        d = U.Driver(sim, prod, "fixed", None)
+        d = U.Driver(sim, prod, "fixed", None, form=case.get("form"))
         B = len(remaining)
         script = [remaining[p][k] for k in range(n) for p in range(B)]  # interval-major, as pre_computation draws
         try:
@@ -387,6 +565,9 @@ def _run_fixed(sh, case, sim, prod, cls):
                     return
                 sh.count("second_batches")
                 kept.reread("pre-computation-again")
+                # the pool: the second batch is simulated by a copy taken after the pre-computation
+                if not _pool_copy(sh, d, "fixed", n, case.get("pool_copy")):
+                    return
                 protocol(len(todo))
                 pool.extend(d.pre_brownian)
                 done, raised = batch(todo, pool, used_batch, len(tuples), middle_op=False)
@@ -404,7 +585,25 @@ def _run_fixed(sh, case, sim, prod, cls):
                 kept.reread("initialisation-again")
                 protocol(len(tuples))
                 pool.extend(d.pre_brownian)
-                batch(tuples, pool, used_batch, 2 * len(tuples), middle_op=False)
+                done, raised = batch(tuples, pool, used_batch, 2 * len(tuples), middle_op=False)
+                if raised:
+                    return
+                # degenerate sizes: nothing to pre-compute (what next_level asks for at an intermediate level), then one path
+                try:
+                    d.precompute_again((), n_paths=0)
+                    single = tuples[len(tuples) // 2]
+                    d.precompute_again(list(single), n_paths=1)
+                except U.ProtocolError:
+                    raise
+                except Exception as e:
+                    sh.violation(_raise_key("fixed", cls, e, n) + ":pre-computation-of-zero-or-one-path", f"{sim} {prod}: {e!r}", None)
+                    return
+                sh.count("single_path_batches")
+                kept.reread("pre-computation-again")
+                protocol(1)
+                pool.extend(d.pre_brownian)
+                batch([single], pool, used_batch, 3 * len(tuples), middle_op=False)
+                _kept_copies(sh, kept)
         finally:
             ctx.__exit__(None, None, None)
 
@@ -415,7 +614,7 @@ def _run_jump(sh, case, sim, prod, cls, mode, eps):
     path, also the only one of a case without jumps, is followed by a later one) and all the kept paths are read again."""
     counts = tuple(case["counts"])
     n = len(counts)
-    d = U.Driver(sim, prod, mode, eps)
+    d = U.Driver(sim, prod, mode, eps, form=case.get("form"))
     try:
         ctx = d.open()
         ctx.__enter__()
@@ -426,7 +625,7 @@ def _run_jump(sh, case, sim, prod, cls, mode, eps):
         return
     try:
         kept = _Kept(sh, d, mode)
-        scripts = list(itertools.product(*[_multisets(c) for c in counts]))
+        scripts = _scripts_of(case, counts)
         scripts.extend([scripts[0], scripts[0]])
         for q, us in enumerate(scripts):
             if q == len(scripts) - 1:
@@ -449,6 +648,9 @@ def _run_jump(sh, case, sim, prod, cls, mode, eps):
                     sh.violation(_raise_key(mode, cls, e, n) + ":pre-computation-again", f"{sim} {prod}: {e!r}", None)
                     return
                 kept.reread("pre-computation-again")
+                # the pool: the following paths are simulated by a copy taken after the pre-computation
+                if not _pool_copy(sh, d, mode, n, case.get("pool_copy")):
+                    return
                 _other_object(sh, d, mode, n, kept)
             try:
                 t, D, J = d.simulate(counts=counts, times=us)
@@ -469,6 +671,7 @@ def _run_jump(sh, case, sim, prod, cls, mode, eps):
             kept.reread("next-path", last_only=True)
             kept.keep(f"#{q} (counts {counts}, uniforms {us})", d.last_path, (t, D, J))
         kept.reread("next-path")
+        _kept_copies(sh, kept)
     finally:
         ctx.__exit__(None, None, None)
 
@@ -532,6 +735,21 @@ def _oracle(sh, d, mode, eps, counts, us, t, D, J, pool, used_batch, p_index):
         acc = ("raises-" + type(e).__name__, repr(e), None)
     if acc is not None:
         viol(f"path-accessor-inconsistent:{acc[0]}", f"path.{acc[0]}() gives {acc[1]}, the stored components give {acc[2]}")
+
+    # ---- engine route: the path manager that next_level appended evaluates its deterministic part on the times of the path and
+    # adds it to value(): two components (fine, coarse), one column per time
+    pms = getattr(d, "path_managers", None)
+    if pms and d.coupled and len(pms) > 1:
+        try:
+            det = np.asarray(pms[-1].deterministic_path(sp.times()), dtype=float)
+            tot = det + np.asarray(sp.value(), dtype=float)
+            ok = tot.shape == D.shape and det.shape[0] == 2
+        except Exception as e:  # noqa
+            ok, det = False, repr(e)
+        sh.count("path_manager_alignments")
+        if not ok:
+            viol("deterministic-part-not-aligned-with-the-path", f"path manager of the level: deterministic part "
+                 f"{det if isinstance(det, str) else det.shape} against components {D.shape}")
 
     # ---- reference original times
     if mode == "fixed":
@@ -650,8 +868,15 @@ def _oracle(sh, d, mode, eps, counts, us, t, D, J, pool, used_batch, p_index):
 
     # ---- maximum step
     if mode == "max":
+        # the times are a cumulative sum of the steps: a step read back from them carries a few ulps of the maturity per point
+        step_max = eps * (1 + 1e-12) + 4 * m1 * float(np.spacing(max(T, eps)))
+        # length of the gap between the two ORIGINAL points around every step
+        srt = sorted(orig)
+        gap_of = np.zeros(max(m1 - 1, 0))
+        for a, b in zip(srt, srt[1:]):
+            gap_of[a:b] = t[b] - t[a]
         for j in range(m1 - 1):
-            if dts[j] > eps * (1 + 1e-12):
+            if dts[j] > step_max:
                 if j + 1 == m1 - 1:
                     gap = "no-jump-path" if sum(counts) == 0 else "last-gap-to-maturity"
                 elif j == 0:
@@ -662,6 +887,9 @@ def _oracle(sh, d, mode, eps, counts, us, t, D, J, pool, used_batch, p_index):
         for j in range(m1 - 1):
             # an inserted point must be a time of its own: strictly between its neighbours, further than rounding
             if dts[j] < small and (j not in orig or (j + 1) not in orig):
+                if gap_of[j] > NEAR_DUP_JUDGED_UP_TO * eps:
+                    sh.count("near_duplicate_inserted_points_in_long_gaps")  # counted, not judged (docstring)
+                    continue
                 where = "inserted-point-at-the-next-time" if j not in orig else "inserted-point-at-the-previous-time"
                 viol("times-not-strictly-increasing", f"times {t[j]!r} and {t[j + 1]!r} (step {dts[j]}) around an inserted point; "
                      f"eps = {eps}", extra=where)
@@ -793,15 +1021,58 @@ def _finer_fun(copy, eps, maturity):
     return create_build_finer_grid_fun(epsilon=eps, maturity=maturity)
 
 
+def _finer_form(x, form):
+    """a scalar argument (maximum step / maturity) in another legal form; None when the form cannot carry the value"""
+    if form in (None, "list"):
+        return x
+    if form == "int":
+        return int(x) if float(x) == int(x) else None
+    if form == "np64":
+        return np.float64(x)
+    if form == "np32":
+        return np.float32(x) if float(np.float32(x)) == float(x) else None
+    if form == "0d":
+        return np.array(float(x))
+    raise ValueError(form)
+
+
+def _finer_inputs(case):
+    """the time arrays of a finer-grid case (tuples of floats), in a fixed order"""
+    k, mat = case["k"], case["maturity"]
+    if k == "acc":
+        # long gaps: no point at all / one early point / one point in the middle / two close points
+        sets = [(), (0.1 * mat,), (0.5 * mat,), (0.3 * mat, 0.35 * mat)]
+        if case["copy"] == "levyprocess":
+            sets = [ts + (mat,) for ts in sets]  # this copy is handed the maturity by its caller
+        return sets
+    lattice = LATTICE_B if case.get("lattice") == "B" else LATTICE
+    return list(itertools.combinations(lattice, k))
+
+
 def _sub_finer(sh, case):
     copy, vals, mat, eps, k = case["copy"], case["vals"], case["maturity"], case["eps"], case["k"]
+    form = case.get("form")
     f = _finer_fun(copy, eps, mat)
+    f_form = None
+    if form is not None:
+        e2, m2 = _finer_form(eps, form), _finer_form(mat, form)
+        if e2 is None or m2 is None:
+            sh.count("forms_not_representable")
+            sh.nontriv()
+            return
+        f_form = _finer_fun(copy, e2, m2)
+        sh.cls(f"finer:form:{form}")
     sh.cls(f"finer:{copy}:{vals}")
     sh.cls("finer:eps>=maturity" if eps >= mat else "finer:eps<maturity")
+    if case.get("lattice") == "B":
+        sh.cls("finer:binary-lattice")
+    if k == "acc":
+        sh.cls("finer:many-points")
     nlong = 0
-    for ts in itertools.combinations(LATTICE, k):
+    for ts in _finer_inputs(case):
         times = np.array(ts, dtype=float)
-        base = np.cumsum([U.ident(i, 0.1, 1.0) for i in range(k)])  # distinct, increasing -> identifiable values
+        kk = len(ts)
+        base = np.cumsum([U.ident(i, 0.1, 1.0) for i in range(kk)]) if kk else np.zeros(0)  # distinct, increasing -> identifiable
         if vals == "1d":
             v1 = base.copy()
             v2 = -2.0 * base
@@ -810,19 +1081,42 @@ def _sub_finer(sh, case):
             v2 = np.array([-2.0 * base, 7.0 - base])
         sh.count("evaluations")
         key0 = f"C15:finer-grid:{copy}:{vals}"
+        args_in = [times.copy(), v1.copy()] + ([v2.copy()] if copy == "helper" else [])
+        args_ref = [a.copy() for a in args_in]
         try:
-            if copy == "levyprocess":
-                out = f(None, times.copy(), v1.copy())
-                at, avs = np.array(out[0], dtype=float), [np.array(out[1], dtype=float)]
-                refs = [v1]
-            else:
-                out = f(None, times.copy(), v1.copy(), v2.copy())
-                at, avs = np.array(out[0], dtype=float), [np.array(out[1], dtype=float), np.array(out[2], dtype=float)]
-                refs = [v1, v2]
+            out = f(None, *args_in)
+            at = np.array(out[0], dtype=float)
+            avs = [np.array(o, dtype=float) for o in out[1:]]
+            refs = [v1] if copy == "levyprocess" else [v1, v2]
         except Exception as e:
             sh.violation(f"{key0}:raises:{type(e).__name__}", f"times {ts} eps {eps}: {e!r}", {"times": ts})
             continue
-        detail = {"times": ts, "eps": eps, "aug_times": at, "aug_values": avs}
+        detail = {"times": ts, "eps": eps, "maturity": mat, "aug_times": at, "aug_values": avs}
+        # the caller's arrays are the caller's: the function must not write to them
+        for nm, a, b in zip(("times", "values", "values"), args_in, args_ref):
+            if a.shape != b.shape or not np.array_equal(a, b):
+                sh.violation(f"{key0}:argument-modified:{nm}", f"times {ts} eps {eps}: the {nm} array handed in was {b}, is {a} after "
+                             f"the call", detail)
+                break
+        # other legal forms of the arguments: same answer
+        if f_form is not None:
+            sh.count("form_comparisons")
+            try:
+                if form == "list":
+                    fargs = [a.tolist() for a in args_ref]
+                else:
+                    fargs = [a.copy() for a in args_ref]
+                out2 = f_form(None, *fargs)
+                same = len(out2) == len(out) and all(
+                    np.shape(np.asarray(x, dtype=float)) == np.shape(np.asarray(y, dtype=float))
+                    and np.array_equal(np.asarray(x, dtype=float), np.asarray(y, dtype=float)) for x, y in zip(out2, out))
+                if not same:
+                    sh.violation(f"{key0}:argument-form-changes-the-answer:{form}",
+                                 f"times {ts} eps {eps} maturity {mat}: with the arguments as {form}: {[np.asarray(o) for o in out2]}, "
+                                 f"with floats: {[np.asarray(o) for o in out]}", detail)
+            except Exception as e:
+                sh.violation(f"{key0}:argument-form-raises:{form}:{type(e).__name__}",
+                             f"times {ts} eps {eps} maturity {mat} with the arguments as {form}: {e!r}", detail)
         m = at.shape[0]
         if any(a.shape[-1] != m for a in avs):
             sh.violation(f"{key0}:values-not-aligned-on-the-times", f"times {ts} eps {eps}: {m} times, values {[a.shape for a in avs]}", detail)
@@ -832,12 +1126,18 @@ def _sub_finer(sh, case):
             continue
         tt = 1e-12
         steps = np.diff(np.concatenate(([0.0], at)))
-        long_in = np.any(np.diff(np.concatenate(([0.0], times))) > eps)
+        ends = at
+        if copy == "helper" and (m == 0 or at[-1] <= mat):
+            # the helper's function also refines the step from the last point to the declared maturity
+            steps = np.append(steps, mat - (at[-1] if m else 0.0))
+            ends = np.append(at, mat)
+        long_in = np.any(np.diff(np.concatenate(([0.0], times))) > eps) or (copy == "helper" and eps < mat and mat - (ts[-1] if ts else 0.0) > eps)
         nlong += int(long_in)
-        if np.any(steps > eps * (1 + 1e-12)):
-            j = int(np.argmax(steps > eps * (1 + 1e-12)))
-            sh.violation(f"{key0}:step-exceeds-maximum:" + ("first-gap" if j == 0 else "gap-between-jumps"),
-                         f"times {ts} eps {eps}: step {steps[j]} ending at {at[j]}", detail)
+        step_max = eps * (1 + 1e-12) + 4 * (m + 1) * float(np.spacing(max(mat, eps)))
+        if eps < mat and np.any(steps > step_max):
+            j = int(np.argmax(steps > step_max))
+            gap = "first-gap" if j == 0 else "last-gap-to-maturity" if j >= m else "gap-between-jumps"
+            sh.violation(f"{key0}:step-exceeds-maximum:{gap}", f"times {ts} eps {eps}: step {steps[j]} ending at {ends[j]}", detail)
         # originals present, in order
         idx = _locate(at, [float(x) for x in times], tt)
         if isinstance(idx, float):
@@ -845,7 +1145,8 @@ def _sub_finer(sh, case):
             continue
         orig = set(idx)
         for a, r in zip(avs, refs):
-            a2, r2 = np.atleast_2d(a), np.atleast_2d(r)
+            a2 = a.reshape(1, -1) if a.ndim == 1 else a
+            r2 = r.reshape(1, -1) if r.ndim == 1 else r
             if not np.array_equal(a2[:, idx], r2):
                 sh.violation(f"{key0}:original-value-changed", f"times {ts} eps {eps}: values {a2[:, idx]} for {r2}", detail)
                 break
@@ -855,7 +1156,7 @@ def _sub_finer(sh, case):
                     continue
                 prevv = a2[:, j - 1] if j > 0 else np.zeros(a2.shape[0])
                 if not np.array_equal(a2[:, j], prevv):
-                    where = "before-first-jump" if j < idx[0] else "between-jumps"
+                    where = "before-first-jump" if (not idx or j < idx[0]) else "after-last-jump" if j > idx[-1] else "between-jumps"
                     sh.violation(f"{key0}:inserted-point-does-not-repeat-preceding-value:{where}",
                                  f"times {ts} eps {eps}: inserted time {at[j]} has value {a2[:, j]}, preceding {prevv}", detail)
                     stop = True
@@ -863,23 +1164,33 @@ def _sub_finer(sh, case):
             if stop:
                 break
         small = 1e-9 * eps
-        if m and at[0] < small:
+        # length of the gap between the two original points (0 and, for the helper, the maturity included) around every step
+        marks = [(-1, 0.0)] + [(i, float(at[i])) for i in sorted(orig)] + ([(m, mat)] if copy == "helper" else [])
+        gap_after = np.zeros(m + 1)  # gap_after[j + 1]: gap containing the step that ends at point j (j = m: the maturity)
+        for (a, ta), (b, tb) in zip(marks, marks[1:]):
+            gap_after[a + 1:b + 1] = tb - ta
+        if m and at[0] < small and 0 not in orig:
             sh.violation(f"{key0}:times-not-strictly-increasing:inserted-point-at-time-zero",
                          f"times {ts} eps {eps}: first returned time {at[0]!r}", detail)
-        for j in range(m - 1):
-            if at[j + 1] - at[j] < small:
-                if j in orig and (j + 1) in orig:
+        for j in range(len(ends) - 1):
+            if ends[j + 1] - ends[j] < small:
+                if j in orig and ((j + 1) in orig or j + 1 == m):
+                    if j + 1 == m:
+                        continue  # an original point at the declared maturity
                     where = "original-points"
+                elif gap_after[j + 1] > NEAR_DUP_JUDGED_UP_TO * eps:
+                    sh.count("near_duplicate_inserted_points_in_long_gaps")  # counted, not judged (docstring)
+                    continue
                 else:
                     # the remainder of a gap that is a multiple of eps up to rounding must not be split once more
                     where = "inserted-point-at-the-next-time" if j not in orig else "inserted-point-at-the-previous-time"
                 sh.violation(f"{key0}:times-not-strictly-increasing:{where}",
-                             f"times {ts} eps {eps}: {at[j]!r} then {at[j + 1]!r} in {at}", detail)
+                             f"times {ts} eps {eps}: {ends[j]!r} then {ends[j + 1]!r} in {ends}", detail)
                 break
         sh.outcome((copy, vals, eps, ts, m))
     sh.count("finer_inputs_with_a_long_gap", nlong)
     sh.nontriv()
-    if k == 2 and eps == 0.3 and vals == "1d" and mat == 1.0:
+    if k == 2 and eps == 0.3 and vals == "1d" and mat == 1.0 and not case.get("lattice"):
         times = np.array([0.2, 0.9])
         out = f(None, times.copy(), np.array([1.0, 3.0])) if copy == "levyprocess" else f(None, times.copy(), np.array([1.0, 3.0]), np.array([2.0, 6.0]))
         sh.sample({"sub": "finer", "copy": copy, "times": [0.2, 0.9], "eps": eps, "result": [np.array(o) for o in out]})
